@@ -243,3 +243,8 @@ func HarnessUnlock() { harnessMu.Unlock() }
 // within the next d fire in due-time order, each followed by a run of all other
 // goroutines until they block. Natively a sleep.
 func AdvanceTime(d time.Duration) int { time.Sleep(d); return 0 }
+
+// TimersRacy(true): pending timers may fire at the executor's scheduling points
+// (one preemption each), not only when every goroutine is blocked: a deadline
+// that expires while the work it guards is still in progress.
+func TimersRacy(b bool) {}
